@@ -4,6 +4,8 @@ package c20
 import (
 	"database/sql"
 	"fmt"
+	"os"
+	"strconv"
 	"testing"
 
 	dblib "github.com/SAP/go-dblib"
@@ -12,13 +14,25 @@ import (
 )
 
 func TestMain(m *testing.M) {
-	vh.Rule("exhaustive: every sql.IsolationLevel -8..64 (x50 calls), every ASEIsolationLevel -4..8 (x2000 calls of ToGo and String), every supported non-default level there-and-back x2000; every ASE level value -70000..70000 plus values around 2^16..2^62 and the extremes (the directions must be consistent: a value that translates back to a supported non-default level is the ASE level that level translates to); rapid: random call histories of FromGo/ToGo/String (2..40 calls) checked for answer stability; 5+ separate processes whose recorded answers must agree. Non-trivial: a level whose ASE target is shared by several sql levels (the only place iteration order can matter), a supported non-default round trip, or a history that asks the same question twice; distinct by level / by call sequence")
+	vh.Rule("exhaustive: every sql.IsolationLevel -8..64 (x50 calls), every ASEIsolationLevel -4..8 (x2000 calls of ToGo and String), every supported non-default level there-and-back x2000; every ASE level value -70000..70000 plus values around 2^16..2^62 and the extremes (the directions must be consistent: a value that translates back to a supported non-default level is the ASE level that level translates to); rapid: random call histories of FromGo/ToGo/String (2..40 calls) checked for answer stability; 5+ separate processes whose recorded answers must agree, each of which asks its first questions about a different level and in a different direction. Non-trivial: a level whose ASE target is shared by several sql levels (the only place iteration order can matter), a supported non-default round trip, or a history that asks the same question twice; distinct by level / by call sequence")
 	vh.Assume("the exported ASELevel* constants are the four ASE levels; the oracle table is written from the property text")
 	// answers given before anything else in this process has used the package: the result must
 	// not depend on which function happened to be called first
-	for a := -4; a <= 8; a++ {
-		earlyToGo[a] = int(dblib.ASEIsolationLevel(a).ToGo())
-		earlyString[a] = dblib.ASEIsolationLevel(a).String()
+	// ... nor on which level was asked about first: every process of a run starts somewhere else
+	// and walks in its own direction, and the answers of all processes must agree
+	shard, _ := strconv.Atoi(os.Getenv("VERIF_SHARD"))
+	for i := 0; i < 13; i++ {
+		a := -4 + (shard+i)%13
+		if shard%2 == 1 {
+			a = -4 + ((shard-i)%13+13)%13
+		}
+		if (shard/13)%2 == 0 {
+			earlyString[a] = dblib.ASEIsolationLevel(a).String()
+			earlyToGo[a] = int(dblib.ASEIsolationLevel(a).ToGo())
+		} else {
+			earlyToGo[a] = int(dblib.ASEIsolationLevel(a).ToGo())
+			earlyString[a] = dblib.ASEIsolationLevel(a).String()
+		}
 	}
 	vh.Rule("also: 2..8 goroutines translating at the same time, every answer compared with the answer of the same call alone (separate race-detector run)")
 	vh.Main(m, "C20")
@@ -325,9 +339,12 @@ func TestEveryLevelValue(t *testing.T) {
 		}
 	}
 	// values whose low 8/16/32 bits are an ASE level, and the extremes
-	for _, base := range []int{1 << 16, 1 << 24, 1 << 31, 1 << 32, 1 << 40, 1 << 62, -(1 << 16), -(1 << 31), -(1 << 32), -(1 << 62)} {
+	for _, base := range []int64{1 << 16, 1 << 24, 1 << 31, 1 << 32, 1 << 40, 1 << 62, -(1 << 16), -(1 << 31), -(1 << 32), -(1 << 62)} {
 		for d := -5; d <= 5; d++ {
-			if !do(base + d) {
+			if int64(int(base+int64(d))) != base+int64(d) {
+				continue // the level type is the platform's int
+			}
+			if !do(int(base + int64(d))) {
 				return
 			}
 		}
